@@ -10,6 +10,9 @@ import Driver.CmdHist
 import Driver.CmdVal
 import Driver.CmdTr
 import Driver.CmdGP
+import Driver.CmdSrch
+import Driver.CmdOpt
+import Driver.CmdDef
 open Lean Driver
 
 def dispatch (cmd : String) (j : Json) : R Json :=
@@ -32,6 +35,11 @@ def dispatch (cmd : String) (j : Json) : R Json :=
   | "tr.coord" => cmdTrCoord j
   | "gp.neighbors" => cmdGpNeighbors j
   | "gp.robust" => cmdGpRobust j
+  | "srch.es" => cmdSrchEs j
+  | "srch.mask" => cmdSrchMask j
+  | "srch.hedge" => cmdSrchHedge j
+  | "opt.load" => cmdOptLoad j
+  | "def.check" => cmdDefCheck j
   | _ => throw s!"unknown command '{cmd}'"
 
 def handleLine (line : String) : String :=
